@@ -111,3 +111,28 @@ def text_of(s, span, circular):
     if circular:
         return "".join(s[j % n] for j in range(a, b))
     return s[a:b]
+
+
+def _toggle(items):
+    return [(it[0], it[1], it[2], not it[3]) if it[0] == "run" else it for it in items]
+
+
+def unique_occurrence(pattern, s):
+    """True when the circular string s holds exactly one occurrence of the structure:
+    exactly one start position matches and the group spans there do not depend on the
+    greedy/lazy preference of the runs (i.e. there is only one way to match)."""
+    items, ng = parse(pattern)
+    n = len(s)
+    data = s + s
+    hits = []
+    for i in range(n):
+        sp = match_at(items, ng, data, i, i + n)
+        if sp is not None:
+            hits.append((i, sp))
+            if len(hits) > 1:
+                return False
+    if len(hits) != 1:
+        return False
+    i, sp = hits[0]
+    sp2 = match_at(_toggle(items), ng, data, i, i + n)
+    return sp2 == sp
